@@ -221,11 +221,16 @@ Definition poly_recovered (oh : line * list line) (poly : polygon) : Prop :=
     Forall (fun l => exists h, In h (snd oh) /\ cw_line h l) hls /\
     (forall h, In h (snd oh) -> exists l, In l hls /\ cw_line h l).
 
-(* strict containment as the even-odd rule defines it, and other outers' bounding boxes avoided *)
+(* containment as the even-odd rule (crossing parity, code's tie rule) defines it: some vertex of
+   every hole has an odd crossing number w.r.t. its own outer, no vertex of it has an odd crossing
+   number w.r.t. any other outer.  Outers may be of any shape and their bounding boxes may
+   overlap.  (For vertex-disjoint, non-nested simple rings with every hole strictly inside its
+   outer this is what the Jordan curve theorem gives; Geo/BuildGeo.v derives it from geometric
+   hypotheses.) *)
 Definition contained (sc : gscene) : Prop :=
   (forall o hs h, In (o, hs) sc -> In h hs -> existsb (point_in_ring (close_ring o)) h = true) /\
   (forall o hs h o' hs', In (o, hs) sc -> In h hs -> In (o', hs') sc -> o' <> o ->
-     forall p, In p h -> outside_bbox (close_ring o') p).
+     existsb (point_in_ring (close_ring o')) h = false).
 
 Lemma tl_singletons : forall l : list line, concat (map (@tl line) (map (fun r => [r]) l)) = [].
 Proof. induction l as [|a l IH]; [reflexivity|exact IH]. Qed.
@@ -273,10 +278,8 @@ Proof.
         - rewrite map_length. apply nth_error_Some. rewrite Hj'. discriminate.
         - rewrite (map_nth_error fst j sc' Hj'), (map_nth_error fst k sc' Hk). reflexivity. }
       assert (Ho3' : (3 <= length o')%nat) by (apply Hleno; unfold s_outers; apply in_map_iff; exists (o', hs'); split; [reflexivity|exact Hoh']).
-      apply contains_outside_bbox. intros p Hp.
-      apply (outside_bbox_ring_line o' olj p ltac:(lia) Hrl').
-      apply (Hout o hs h o' hs' Hoh Hhin Hoh' Hne).
-      apply (in_ring_line h l p ltac:(lia) (proj1 Hcw)). exact Hp. }
+      rewrite (contains_ring_lines o' olj h l); try lia; [|exact Hrl'|apply Hcw].
+      apply (Hout o hs h o' hs' Hoh Hhin Hoh' Hne). }
   destruct (assign_holes incl orings owner_ok hlines _ Hshape0 Howners) as ([Hlenmp Hsh] & Hcnt & Hcov & Honly).
   fold mp in Hlenmp, Hsh, Hcnt, Hcov, Honly.
   split.
